@@ -195,6 +195,13 @@ def getitem_term(a: Arr, key):
         bounds += [lo, hi]
     # normalise nested slices: slice(slice(M, r0, _, c0, _), a, b, c, d) = slice(M, r0+a, r0+b, c0+c, c0+d)
     base = a.term
+    if z3.is_app(base) and base.decl().name() == "mat.T":
+        # a slice of a transpose is the transpose of the mirrored slice: M.T[a:b, c:d] = M[c:d, a:b].T  (one normal form for both spellings)
+        inner = base.children()[0]
+        if z3.is_app(inner) and inner.decl().name() == "mat.slice":
+            bt, r0, _r1, c0, _c1 = inner.children()
+            return T_(slc(bt, simp(r0 + zi(bounds[2])), simp(r0 + zi(bounds[3])), simp(c0 + zi(bounds[0])), simp(c0 + zi(bounds[1]))))
+        return T_(slc(inner, bounds[2], bounds[3], bounds[0], bounds[1]))
     if z3.is_app(base) and base.decl().name() == "mat.slice":
         bt, r0, _r1, c0, _c1 = base.children()
         return slc(bt, simp(r0 + zi(bounds[0])), simp(r0 + zi(bounds[1])), simp(c0 + zi(bounds[2])), simp(c0 + zi(bounds[3])))
